@@ -7,6 +7,15 @@ import Minicbor.Thm.C08
 import Minicbor.Lemmas.TypesStart
 
 namespace Minicbor.Derive
+
+/-- a definite wrapper has no end marker to read. -/
+theorem wrapperEnd_false_run (r : Bytes) : wrapperEnd false r = .ok () r := rfl
+
+/-- … so after a definite wrapper the enum decoder's result is the variant's. -/
+theorem wrapperEnd_false_bind {α : Type} (m : Dec α) (bs : Bytes) :
+    (do let v ← m; wrapperEnd false; pure v : Dec α) bs = m bs := by
+  simp only [Dec.bind_run, wrapperEnd_false_run, Dec.pure_run]
+  cases m bs <;> rfl
 open Minicbor.Dec
 
 /-! ### leaves -/
